@@ -56,7 +56,7 @@ def run_kani(engine, tag, tier, hs, log_path, overall_timeout):
     json_out = os.path.join(weave.workdir(engine, tag), "result.json")
     if os.path.exists(json_out):
         os.remove(json_out)
-    per = max([h.timeout for h in hs if h.timeout] + [300 if tier == "quick" else 1800])
+    per = max([h.timeout for h in hs if h.timeout] + [300 if tier == "quick" else (60 if tier == "dev" else 1800)])
     jobs = max(1, min(JOBS, len(hs)))
     # harness filters are substring matches: make them unambiguous by anchoring on the module path
     filters = [f"verif_{h.module}::{h.name}" for h in hs]
@@ -108,6 +108,30 @@ def run_kani(engine, tag, tier, hs, log_path, overall_timeout):
             res["error"] = errs.get(hid, {})
             res["status"] = "ran"
             res["reason"] = ""
+    # fallback: the kani driver can panic after a harness time-out and then writes no JSON; the terse log
+    # still holds one result block per harness
+    parsed = parse_terse_log(log)
+    for name, res in results.items():
+        if res["status"] == "ran" and res["checks"]:
+            continue
+        blk = parsed.get(name)
+        if not blk:
+            continue
+        if blk["verdict"] == "SUCCESSFUL":
+            res.update(status="ran", reason="", kani_status="Success", from_log=True)
+            res["checks"] = ([{"status": "Success", "category": "assertion", "description": f"{blk['total']} checks (from terse log)",
+                               "function": "", "location": {}}]
+                             + [{"status": "Satisfied", "category": "cover", "description": "cover (from terse log)", "function": "verif_", "location": {"file": "/harness/"}}] * blk["cov_sat"]
+                             + [{"status": "Unsatisfiable", "category": "cover", "description": "cover (from terse log)", "function": "verif_", "location": {"file": "/harness/"}}] * (blk["cov_total"] - blk["cov_sat"]))
+            res["duration_ms"] = blk.get("time_ms")
+        elif blk["failed"]:
+            res.update(status="ran", reason="", kani_status="Failure", from_log=True)
+            res["checks"] = [{"status": "Failure", "category": "assertion", "description": d, "function": fn,
+                              "location": {"file": f, "line": ln}} for (d, f, ln, fn) in blk["failed"]]
+            res["duration_ms"] = blk.get("time_ms")
+        else:
+            res["status"] = "no_checks"
+            res["reason"] = blk.get("note") or "kani reported FAILED without a failed check (out of memory / solver error)"
     # anything that produced no per-check list is inconclusive: find out why from the log
     for name, res in results.items():
         if res["status"] == "ran" and not res["checks"]:
@@ -115,6 +139,46 @@ def run_kani(engine, tag, tier, hs, log_path, overall_timeout):
             et = res.get("error", {}).get("error_type") or res.get("error", {}).get("exit_status") or ""
             res["reason"] = f"kani reported no checks ({et or res.get('kani_status')}): timeout, out of memory or CBMC error"
     return results, wall, rc
+
+
+def parse_terse_log(log):
+    """harness name -> {verdict, total, failed:[(desc,file,line,fn)], cov_sat, cov_total, note, time_ms}"""
+    cur = {}
+    out = {}
+    blocks = re.split(r"(?m)^Thread (\d+): ", log)
+    # blocks = [pre, tid, text, tid, text, ...]
+    for i in range(1, len(blocks) - 1, 2):
+        tid, text = blocks[i], blocks[i + 1]
+        m = re.match(r"Checking harness (\S+?)\.\.\.", text)
+        if m:
+            cur[tid] = m.group(1).split("::")[-1]
+            continue
+        name = cur.get(tid)
+        if not name:
+            continue
+        b = {"verdict": None, "total": 0, "failed": [], "cov_sat": 0, "cov_total": 0, "note": "", "time_ms": None}
+        m = re.search(r"VERIFICATION:- (\w+)", text)
+        if m:
+            b["verdict"] = m.group(1)
+        m = re.search(r"\*\* (\d+) of (\d+) failed", text)
+        if m:
+            b["total"] = int(m.group(2))
+        m = re.search(r"\*\* (\d+) of (\d+) cover properties satisfied", text)
+        if m:
+            b["cov_sat"], b["cov_total"] = int(m.group(1)), int(m.group(2))
+        for fm in re.finditer(r'Failed Checks: (.*)\n File: "([^"]*)", line (\d+), in (\S+)', text):
+            b["failed"].append((fm.group(1).strip(), fm.group(2), fm.group(3), fm.group(4)))
+        if "timed out" in text:
+            b["note"] = "CBMC timed out"
+        elif "out of memory" in text:
+            b["note"] = "CBMC ran out of memory"
+        elif "CBMC failed" in text:
+            b["note"] = "CBMC failed"
+        m = re.search(r"Verification Time: ([\d.]+)s", text)
+        if m:
+            b["time_ms"] = int(float(m.group(1)) * 1000)
+        out[name] = b
+    return out
 
 
 def _q(s):
